@@ -533,21 +533,45 @@ def name_scopes(ctx, rid):
                 o = operand_origin(f, c.args[2])
                 if o[0] == "const" and "Outer" in str(o[1]):
                     r.undecidable(rid, "%s tests outer attributes with visit_attrs but is not in the table of name-scope visitors" % short(f.id))
+    def scoping_wrapper(h):
+        """a helper that adds the names, runs a caller-supplied closure, and puts the context back: every indirect call of a
+        closure parameter is unreachable from its entry without passing update_with_attrs, and a store to skip_context follows"""
+        if h is None or h.crate != "rustfmt_nightly":
+            return False
+        u = [c for c in h.calls() if c.name.endswith("SkipContext::update_with_attrs")]
+        ind = [c for c in h.calls() if (c.declared or "").startswith("std::ops::FnOnce::call_once") or (c.declared or "").startswith("std::ops::FnMut::call_mut")
+               or (c.declared or "").startswith("std::ops::Fn::call")]
+        if not u or not ind:
+            return False
+        free_h = h.reachable(0, avoid_blocks={c.bb for c in u})
+        if any(c.bb in free_h for c in ind):
+            return False
+        w = {bb for (adt, var, field, mode, bb, line) in h.field_accesses()
+             if field == "skip_context" and mode == "w" and adt.endswith("FmtVisitor")} - {c.bb for c in u}
+        for c in ind:
+            rs = h.reachable(c.target if c.target is not None else c.bb, avoid_blocks=w)
+            if any(x in rs for x in h.returns()):
+                return False
+        return True
+
     n_sinks = 0
     for fid, f in table_ids.items():
         name = f.id.rsplit("::", 1)[-1]
+        wrappers = [c for c in f.calls() if scoping_wrapper(p.fns.get(c.resolved or ""))]
         upd = [c for c in f.calls() if c.name.endswith("SkipContext::update_with_attrs")]
         upd_bbs = {c.bb for c in upd}
         free = f.reachable(0, avoid_blocks=upd_bbs)
         sinks = []
         for c in f.calls():
+            if c in wrappers:
+                continue
             tg = [t for (t, kind) in p.call_targets(c)]
             tg += [x for x in c.refs if x in p.fns]
             if any(t in reach for t in tg) and not any(t in table_ids for t in tg):
                 sinks.append(c)
         n_sinks += len(sinks)
         bad = [c for c in sinks if c.bb in free and c.bb not in upd_bbs]
-        r.instance(rid, "%s: names of the node's attributes scoped" % name, "ok" if not bad and upd else "violation",
+        r.instance(rid, "%s: names of the node's attributes scoped" % name, "ok" if not bad and (upd or wrappers) else "violation",
                    "%s:%d" % (f.file, f.line), "%d descending calls, %d updates" % (len(sinks), len(upd)))
         for c in bad:
             r.violation(rid, "%s: %s reached without the node's skip names" % (name, short(c.name).rsplit("::", 1)[-1]),
@@ -556,7 +580,7 @@ def name_scopes(ctx, rid):
                         "context: the named macros and attributes inside are reformatted" % (name, NAME_SCOPE_VISITORS[name], short(c.name)),
                         [c.loc()])
         if not upd:
-            if not bad:
+            if not bad and not wrappers:
                 r.violation(rid, "%s: never updates the skip context" % name, "no call to SkipContext::update_with_attrs", ["%s:%d" % (f.file, f.line)])
             continue
         # restore on every path
